@@ -5,7 +5,7 @@ func init() {
 		info: PropInfo{
 			Bounds: []string{
 				"zoom-in/zoom-out/merge/overlap round trip: base zooms (h,v) in {0,1,10,24,25,33}^2-diagonal plus mixed pairs, zoom-in (dh,dv) with dh+dv <= 2 (quick) / dh,dv <= 2 with 2*dh+dv <= 4 (thorough); indices symbolic, both signs for f",
-				"ancestor nesting: zoom-out distances (a1,a2) in {(1,2),(1,5),(3,25),(10,35)} from bases 35, 26, 25, 12",
+				"cross-ordered pairs: the ancestors (h-a, v) and (h, v-b) of one voxel overlap, for (h,v,a,b) in {(3,3,1,1),(3,3,2,1),(20,18,2,2),(26,26,1,2),(2,1,2,1)}", "ancestor nesting: zoom-out distances (a1,a2) in {(1,2),(1,5),(3,25),(10,35)} from bases 35, 26, 25, 12",
 				"point-level nesting (the ID of a point at a coarser zoom equals the zoom-out of its ID at a finer zoom): vertical axis decided exactly in IEEE arithmetic for every ordered zoom pair in the C01 harness VerifC09PointVertical; horizontal x axis decided for zoom pairs where the finer zoom is <= 26 (VerifC09PointX)",
 			},
 			Outside: []string{"point nesting on the latitude axis (libm transcendentals: no solver theory)", "zoom-in by more than 2 levels per axis"},
@@ -32,6 +32,11 @@ func init() {
 					in.Unwind = 40
 					is = append(is, in)
 				}
+			}
+			for _, c := range [][4]int{{3, 3, 1, 1}, {3, 3, 2, 1}, {20, 18, 2, 2}, {26, 26, 1, 2}, {2, 1, 2, 1}} {
+				in := mk("detector", "VerifC09Cross", cs("h", c[0], "v", c[1], "a", c[2], "b", c[3]))
+				in.Unwind = 40
+				is = append(is, in)
 			}
 			for _, z := range []int{1, 2, 3} {
 				in := mk("detector", "VerifC09TreeNested", cs("z", z))
